@@ -130,10 +130,20 @@ def facts_dir(profile, key=None):
             json.dump({"wall_s": wall, "key": key, "profile": profile}, f)
         # drop fact sets of older keys (keep disk bounded)
         root = os.path.join(CACHE, "facts")
-        keys = sorted(os.listdir(root), key=lambda k: os.path.getmtime(os.path.join(root, k)))
+
+        def _mtime(k):
+            try:
+                return os.path.getmtime(os.path.join(root, k))
+            except OSError:          # removed by a concurrent run in the meantime
+                return None
+        try:
+            keys = [(k, _mtime(k)) for k in os.listdir(root)]
+        except OSError:
+            keys = []
+        keys = sorted([(k, t) for k, t in keys if t is not None], key=lambda kt: kt[1])
         # (a key that was touched in the last 30 minutes may be in use by a concurrent run on another tree: leave it)
         now = time.time()
-        for k in keys[:-3]:
-            if k != key and now - os.path.getmtime(os.path.join(root, k)) > 1800:
+        for k, t in keys[:-3]:
+            if k != key and now - t > 1800:
                 shutil.rmtree(os.path.join(root, k), ignore_errors=True)
     return d
